@@ -456,6 +456,16 @@ class RunClass(Run):
             if ps is not None and n >= 4:
                 for i, k in enumerate(sgn):
                     self.bin("signbit%d" % i, k)      # every sign bit individually fair
+            if pauli and n >= 4:
+                # product maps on larger registers: every site carries one of the 6 single-qubit
+                # classes (x4 sign patterns), uniformly, and any two sites are independent
+                site = [(cls[2 * i][i], cls[2 * i + 1][i]) for i in range(n)]
+                for i in range(n):
+                    self.bin("site:q%d" % i, site[i])
+                    if ps is not None:
+                        self.bin("sitesign:q%d" % i, (site[i], sgn[2 * i], sgn[2 * i + 1]))
+                    for j in range(i + 1, n):
+                        self.bin("sitepair:q%d:q%d" % (i, j), (site[i], site[j]))
             if n >= 4 and s in ("rcm", "t:rcm", "rcliff", "t:rcliff"):
                 # every image of a uniformly random Clifford is marginally uniform over the 4^N-1
                 # non-identity strings: letter frequencies per (row, site) have known probabilities
@@ -502,6 +512,20 @@ class RunClass(Run):
                 # uniform pure stabilizer state with probability (2^N-1)/(4^N-1), both signs alike
                 for k, P in enumerate(fixed_observables(n)):
                     self.bin("obs%d" % k, a.eigenvalue(P))
+            if s in ("rps", "t:rps", "onsite") and n >= 3 and a.rank == 0:
+                # product states: each site is in one of the 6 single-qubit stabilizer states,
+                # uniformly, and any two sites are independent (gauge-independent: read off the group)
+                site = []
+                for q in range(n):
+                    found = [(l, a.eigenvalue((tuple(l if i == q else 0 for i in range(n)), 0))) for l in (1, 2, 3)]
+                    found = [f for f in found if f[1] is not None]
+                    if len(found) != 1:
+                        self.bad("product_state_site_not_pure", site=q)
+                    site.append(found[0])
+                for i in range(n):
+                    self.bin("sitestate:q%d" % i, site[i])
+                    for j in range(i + 1, n):
+                        self.bin("sitestatepair:q%d:q%d" % (i, j), (site[i], site[j]))
             if s in ("global", "brickwall", "mcirc") and n == 2:
                 self.bin("state", a.key())
             if s == "fcirc" and n == 2 and len(self.cfg["rand_qubits"]) == 2:
@@ -647,6 +671,12 @@ def batch_oracles(merged, mode):
         bins = EXPECTED_BINS.get((stat, n, fam)) or EXPECTED_BINS.get((stat, n, "any"))
         if stat.startswith("signbit"):
             bins = 2
+        if stat.startswith("site:") or stat.startswith("sitestate:"):
+            bins = 6
+        if stat.startswith("sitesign:"):
+            bins = 24
+        if stat.startswith("sitepair:") or stat.startswith("sitestatepair:"):
+            bins = 36
         if stat in ("sign_repeat", "class_repeat"):
             fam0 = _family(sampler)
             if stat == "sign_repeat":
@@ -738,13 +768,15 @@ def batch_oracles(merged, mode):
         x2 = sum((c - e) ** 2 / e for c in cnt.values()) + (bins - len(cnt)) * e
         thr = _threshold(bins - 1)
         evaluated[0] += 1
+        if stat.startswith("site") and x2 <= thr and not stat.endswith((":q0", ":q0:q1")):
+            continue      # per-site statistics: one representative each is listed, and all failures
         out.append((name, x2 <= thr, {"statistic": "chi2", "sampler": sampler, "N": n, "regime": regime, "stat": stat,
                                       "n": total, "bins": bins, "bins_seen": len(cnt), "chi2": round(x2, 2),
                                       "threshold": round(thr, 2), "false_alarm_level": 1e-9}))
     out.append(("c16.statistics_summary", True,
                 {"statistic": "summary", "statistics_evaluated": evaluated[0], "per_statistic_false_alarm_level": 1e-9,
                  "union_bound_false_alarm_per_batch": evaluated[0] * 1e-9,
-                 "note": "per-(row,site) letter statistics are listed only for the last site of row 0 and when they fail"}))
+                 "note": "per-(row,site) letter, pair-letter, sign-pair and per-site statistics are all evaluated; only representatives and failures are listed"}))
     return out
 
 
